@@ -1,0 +1,86 @@
+//go:build verif
+// +build verif
+
+package bfe_tls
+
+// Hooks for the out-of-tree verification harness of property C42 (build tag verif, add-only).
+// They let the harness (a) obtain authentic sealed records from the sending half of a real
+// connection, one record per call (including empty payloads and non-application record types,
+// which Conn.Write cannot produce), and (b) classify the error a Conn.Read returned.
+
+import (
+	"io"
+	"net"
+)
+
+// VerifC42Seal seals exactly one record of type typ carrying data with the connection's current
+// write state (the body of writeRecord's loop for one fragment; real halfConn.encrypt, real
+// sequence number) and returns the wire bytes instead of writing them to the network.
+func (c *Conn) VerifC42Seal(typ byte, data []byte) []byte {
+	c.out.Lock()
+	defer c.out.Unlock()
+	explicitIVLen := 0
+	explicitIVIsSeq := false
+	if c.out.version >= VersionTLS11 {
+		if cbc, ok := c.out.cipher.(cbcMode); ok {
+			explicitIVLen = cbc.BlockSize()
+		}
+	}
+	if explicitIVLen == 0 {
+		if a, ok := c.out.cipher.(aead); ok {
+			explicitIVLen = a.explicitNonceLen()
+			explicitIVIsSeq = explicitIVLen > 0
+		}
+	}
+	m := len(data)
+	b := c.out.newBlock()
+	b.resize(recordHeaderLen + explicitIVLen + m)
+	b.data[0] = typ
+	b.data[1] = byte(c.vers >> 8)
+	b.data[2] = byte(c.vers)
+	b.data[3] = byte(m >> 8)
+	b.data[4] = byte(m)
+	if explicitIVLen > 0 {
+		explicitIV := b.data[recordHeaderLen : recordHeaderLen+explicitIVLen]
+		if explicitIVIsSeq {
+			copy(explicitIV, c.out.seq[:])
+		} else {
+			io.ReadFull(c.config.rand(), explicitIV)
+		}
+	}
+	copy(b.data[recordHeaderLen+explicitIVLen:], data)
+	c.out.encrypt(b, explicitIVLen)
+	out := append([]byte(nil), b.data...)
+	c.out.freeBlock(b)
+	return out
+}
+
+// VerifC42Vers returns the negotiated protocol version and cipher suite.
+func (c *Conn) VerifC42Vers() (uint16, uint16) { return c.vers, c.cipherSuite }
+
+// VerifC42InSeq returns the receiving half's sequence number.
+func (c *Conn) VerifC42InSeq() uint64 {
+	c.in.Lock()
+	defer c.in.Unlock()
+	var s uint64
+	for _, x := range c.in.seq {
+		s = s<<8 | uint64(x)
+	}
+	return s
+}
+
+// VerifC42ErrClass maps an error returned by Conn.Read to (kind, alert number):
+// kind is "local"/"remote" for alert errors (*net.OpError wrapping an alert), "" otherwise.
+func VerifC42ErrClass(err error) (string, int) {
+	if oe, ok := err.(*net.OpError); ok {
+		if a, ok := oe.Err.(alert); ok {
+			switch oe.Op {
+			case "local error":
+				return "local", int(a)
+			case "remote error":
+				return "remote", int(a)
+			}
+		}
+	}
+	return "", -1
+}
